@@ -1,3 +1,245 @@
-(* placeholder: theorems follow *)
-From CC Require Import Model.Circuit.
-Example C17_model_runs : True. Proof. exact I. Qed.
+(* C17 — Every documented element kind of a network or circuit description loads into an element with exactly the given
+   identifier, terminals and value; Cartesian and polar (radian or degree) complex notations denote the same number;
+   complex values nested anywhere in dictionaries and lists survive a round trip unchanged; loading never mutates the
+   description it is given, so loading the same description twice gives equal results.
+   Statements only; every proof is [exact <lemma>].  Model: Model/Loaders.v — an interpreter of the tables regenerated
+   from Network/loaders.py, Network/elements.py, Circuit/components.py, Circuit/dump_load.py (Gen/Tables.v), plus
+   dump_load.py.  R: the reals (any field with a boolean <=), Cx R: Python complex; [cis x] = (cos x, sin x) and [pi]
+   are oracles.  The JSON / YAML text layer itself (json.dumps/loads, yaml.dump/safe_load) is not modelled. *)
+From Coq Require Import List Bool ZArith NArith QArith Qcanon String.
+From CC Require Import Theory.Field Theory.Complex Theory.Labels Model.Network Gen.Tables Model.Circuit Model.RunCircuit
+  Model.Loaders Theory.LoadersThm.
+Import ListNotations.
+
+(* ================= A. network descriptions: every kind of the loader table ================= *)
+(* The documented kinds: type string, keys written in complex notation, keys written as plain numbers, and the element
+   meant ([arg v i]: the i-th value, complex keys first; [c0] = 0).  Y of the current sources and Z of the voltage
+   sources are optional where the loader passes them on unconverted. *)
+Definition C17_documented_kinds (R : fops) : list (kdoc R) := [
+  {| k_type := lbl "resistor"; k_cplx := []; k_real := [s_R]; k_elem := fun n v => resistor n (arg R v 0) |};
+  {| k_type := lbl "conductor"; k_cplx := []; k_real := [s_G]; k_elem := fun n v => conductor n (arg R v 0) |};
+  {| k_type := lbl "impedance"; k_cplx := [s_Z]; k_real := []; k_elem := fun n v => impedance n (arg R v 0) |};
+  {| k_type := lbl "admittance"; k_cplx := [s_Y]; k_real := []; k_elem := fun n v => admittance n (arg R v 0) |};
+  {| k_type := lbl "linear_current_source"; k_cplx := [s_I; s_Y]; k_real := [];
+     k_elem := fun n v => current_source n (arg R v 0) (arg R v 1) |};
+  {| k_type := lbl "current_source"; k_cplx := [s_I]; k_real := []; k_elem := fun n v => current_source n (arg R v 0) (c0 R) |};
+  {| k_type := lbl "current_source"; k_cplx := [s_I]; k_real := [s_Y]; k_elem := fun n v => current_source n (arg R v 0) (arg R v 1) |};
+  {| k_type := lbl "real_current_source"; k_cplx := []; k_real := [s_I]; k_elem := fun n v => current_source n (arg R v 0) (c0 R) |};
+  {| k_type := lbl "real_current_source"; k_cplx := []; k_real := [s_I; s_Y];
+     k_elem := fun n v => current_source n (arg R v 0) (arg R v 1) |};
+  {| k_type := lbl "linear_voltage_source"; k_cplx := [s_V; s_Z]; k_real := [];
+     k_elem := fun n v => voltage_source n (arg R v 0) (arg R v 1) |};
+  {| k_type := lbl "voltage_source"; k_cplx := [s_V]; k_real := []; k_elem := fun n v => voltage_source n (arg R v 0) (c0 R) |};
+  {| k_type := lbl "voltage_source"; k_cplx := [s_V]; k_real := [s_Z]; k_elem := fun n v => voltage_source n (arg R v 0) (arg R v 1) |};
+  {| k_type := lbl "real_voltage_source"; k_cplx := []; k_real := [s_V]; k_elem := fun n v => voltage_source n (arg R v 0) (c0 R) |};
+  {| k_type := lbl "real_voltage_source"; k_cplx := []; k_real := [s_V; s_Z];
+     k_elem := fun n v => voltage_source n (arg R v 0) (arg R v 1) |};
+  {| k_type := lbl "short_circuit"; k_cplx := []; k_real := []; k_elem := fun n v => short_circuit n |};
+  {| k_type := lbl "open_circuit"; k_cplx := []; k_real := []; k_elem := fun n v => open_circuit n |}
+]%string.
+
+(* the table above and network_branch_translators name the same kinds: none undocumented, none invented *)
+Theorem C17_kinds_covered : forall (R : fops),
+  (forall e, In e network_loader_table -> exists k, In k (C17_documented_kinds R) /\ k_type R k = l_type e)
+  /\ (forall k, In k (C17_documented_kinds R) -> exists e, In e network_loader_table /\ l_type e = k_type R k).
+Proof. exact kinds_covered. Qed.
+Print Assumptions C17_kinds_covered.
+
+(* One written entry  {type, id, N1, N2, <complex keys in either notation>, <plain keys>}  — identifier, terminals and
+   values universally quantified; a complex value is written  Cart re im = {real, imag}  or  Polar r ph = {abs, phase}
+   and means  note_val = (re, im)  resp.  (r cos ph, r sin ph) — loads to exactly the branch between N1 and N2 carrying
+   the element the kind's constructor builds from these values. *)
+Theorem C17_each_kind : forall (R : fops) (pi : R) (cis : R -> R * R) (k : kdoc R) (id n1 n2 : label) (cs : list (cnote R)) (rs : list R),
+  In k (C17_documented_kinds R) -> List.length cs = List.length (k_cplx R k) -> List.length rs = List.length (k_real R k) ->
+  let entry := JDict ((s_type, JStr (k_type R k)) :: (s_id, JStr id) :: (s_N1, JStr n1) :: (s_N2, JStr n2)
+                      :: combine (k_cplx R k) (map (note_doc R) cs) ++ combine (k_real R k) (map (fun x => JNum x) rs)) in
+  fst (entry_to_branch_st R pi cis true entry)
+  = Ok (Build_branch n1 n2 (k_elem R k id (map (note_val R cis) cs ++ map (fun x => ((x, f0 R) : Cx R)) rs))).
+Proof. exact each_kind_entry_unfolded. Qed.
+Print Assumptions C17_each_kind.
+
+(* A whole description — any number of such entries in any order of kinds, each at any position — loads to exactly the
+   listed branches in the listed order with reference "0", through the validating Network constructor. *)
+Theorem C17_each_kind_description : forall (R : fops) (pi : R) (cis : R -> R * R) (es : list (espec R)),
+  (forall e, In e es -> In (e_kind R e) (C17_documented_kinds R)
+                        /\ List.length (e_cs R e) = List.length (k_cplx R (e_kind R e))
+                        /\ List.length (e_rs R e) = List.length (k_real R (e_kind R e))) ->
+  load_network R pi cis (JList (map (entry_doc R) es))
+  = validate {| branches := map (entry_branch R cis) es; zero := s_zero |}.
+Proof. exact each_kind_description. Qed.
+Print Assumptions C17_each_kind_description.
+
+(* The order in which the keys of an entry are written is immaterial: any permutation of the items of a documented entry
+   (its keys are distinct) loads to the same branch ... *)
+Theorem C17_each_kind_any_order : forall (R : fops) (pi : R) (cis : R -> R * R) (e : espec R) (d : dict (jval R)),
+  (In (e_kind R e) (C17_documented_kinds R) /\ List.length (e_cs R e) = List.length (k_cplx R (e_kind R e))
+   /\ List.length (e_rs R e) = List.length (k_real R (e_kind R e))) ->
+  Permutation.Permutation d (entry_dict R e) ->
+  fst (entry_to_branch_st R pi cis true (JDict d)) = Ok (entry_branch R cis e).
+Proof. exact each_kind_any_order. Qed.
+Print Assumptions C17_each_kind_any_order.
+(* ... and so does a whole description whose entries are each written in an order of their own *)
+Theorem C17_each_kind_description_any_order : forall (R : fops) (pi : R) (cis : R -> R * R) (es : list (espec R * dict (jval R))),
+  (forall p, In p es -> (In (e_kind R (fst p)) (C17_documented_kinds R)
+                         /\ List.length (e_cs R (fst p)) = List.length (k_cplx R (e_kind R (fst p)))
+                         /\ List.length (e_rs R (fst p)) = List.length (k_real R (e_kind R (fst p))))
+                        /\ Permutation.Permutation (snd p) (entry_dict R (fst p))) ->
+  load_network R pi cis (JList (map (fun p => JDict (snd p)) es))
+  = validate {| branches := map (fun p => entry_branch R cis (fst p)) es; zero := s_zero |}.
+Proof. exact each_kind_description_any_order. Qed.
+Print Assumptions C17_each_kind_description_any_order.
+
+(* ================= B. the circuit loader ================= *)
+(* a complete component description {id, type, nodes, value} is the call of the constructor the table names for its
+   type, with exactly these arguments (a TypeError of the call is reported as IncorrectComponentInformation) ... *)
+Theorem C17_component_call : forall (R : fops) (leb : R -> R -> bool) (d vd : dict (jval R)) (idv nv : jval R) (t f : label),
+  dget d s_id = Some idv -> dget d s_value = Some (JDict vd) -> dget d s_type = Some (JStr t) -> dget d s_nodes = Some nv ->
+  tfind t circuit_loader_table = Some f ->
+  generate_component R leb (JDict d) = typeerror_to_incorrect (construct R leb f ((s_id, idv) :: (s_nodes, nv) :: vd)).
+Proof. exact generate_component_call. Qed.
+Print Assumptions C17_component_call.
+(* ... that constructor stores the row's own type string ... *)
+Theorem C17_component_table : forall t f, In (t, f) circuit_loader_table -> exists c, find_ctor_fun f = Some c /\ c_type c = t.
+Proof. exact circuit_table_ok. Qed.
+Print Assumptions C17_component_table.
+(* ... and an accepted call carries exactly the type of the table, the identifier and terminals given ... *)
+Theorem C17_component_identity : forall (R : fops) (leb : R -> R -> bool) (c : ctor) (kw : dict (jval R)) (cmp : lcomp R) (i : label) (ns : list label),
+  run_ctor R leb c kw = Ok cmp -> dget kw s_id = Some (JStr i) -> dget kw s_nodes = Some (JList (map (fun n => JStr n) ns)) ->
+  lc_type cmp = c_type c /\ lc_id cmp = i /\ lc_nodes cmp = ns.
+Proof. exact ctor_stored. Qed.
+Print Assumptions C17_component_identity.
+(* ... and the values given: under every key the constructor writes a parameter to (VParam: as given; VReal / VImag:
+   the real / imaginary part of a complex or real argument) *)
+Theorem C17_component_values : forall (R : fops) (leb : R -> R -> bool) (c : ctor) (kw : dict (jval R)) (cmp : lcomp R) (key q : label) (v : jval R),
+  run_ctor R leb c kw = Ok cmp -> dget kw q = Some v ->
+  (In (key, VParam q) (c_values c) -> In (key, v) (lc_value cmp))
+  /\ (forall z, v = JCplx z -> In (key, VReal q) (c_values c) -> In (key, JNum (fst z)) (lc_value cmp))
+  /\ (forall z, v = JCplx z -> In (key, VImag q) (c_values c) -> In (key, JNum (snd z)) (lc_value cmp))
+  /\ (forall x, v = JNum x -> In (key, VReal q) (c_values c) -> In (key, JNum x) (lc_value cmp))
+  /\ (forall x, v = JNum x -> In (key, VImag q) (c_values c) -> In (key, JNum (f0 R)) (lc_value cmp)).
+Proof. exact ctor_values_stored. Qed.
+Print Assumptions C17_component_values.
+
+(* ================= C. notations ================= *)
+(* whatever else the dictionary holds and in whatever order its keys come *)
+Theorem C17_cartesian : forall (R : fops) (pi : R) (cis : R -> R * R) (deg : bool) (d : dict (jval R)) (a b : R),
+  dget d s_real = Some (JNum a) -> dget d s_imag = Some (JNum b) -> to_complex R pi cis deg (JDict d) = Ok ((a, b) : Cx R).
+Proof. exact to_complex_cartesian. Qed.
+Print Assumptions C17_cartesian.
+Theorem C17_polar : forall (R : fops) (pi : R) (cis : R -> R * R) (d : dict (jval R)) (r ph c s : R),
+  (dget d s_real = None \/ dget d s_imag = None) ->
+  dget d s_abs = Some (JNum r) -> dget d s_phase = Some (JNum ph) -> cis ph = (c, s) ->
+  to_complex R pi cis false (JDict d) = Ok ((fmul R r c, fmul R r s) : Cx R).
+Proof. exact to_complex_polar. Qed.
+Print Assumptions C17_polar.
+Theorem C17_polar_degree : forall (R : fops) (pi : R) (cis : R -> R * R) (d : dict (jval R)) (r ph c s : R),
+  (dget d s_real = None \/ dget d s_imag = None) ->
+  dget d s_abs = Some (JNum r) -> dget d s_phase = Some (JNum ph) -> cis (fdiv R (fmul R ph pi) (ofZ R 180)) = (c, s) ->
+  to_complex R pi cis true (JDict d) = Ok ((fmul R r c, fmul R r s) : Cx R).
+Proof. exact to_complex_polar_degree. Qed.
+Print Assumptions C17_polar_degree.
+(* the notations of one number z = r (cos th + j sin th) denote the same number *)
+Theorem C17_notations_agree : forall (R : fops) (pi : R) (cis : R -> R * R) (r ph : R),
+  let z : Cx R := (fmul R r (fst (cis ph)), fmul R r (snd (cis ph))) in
+  to_complex R pi cis false (JDict [(s_abs, JNum r); (s_phase, JNum ph)]) = Ok z
+  /\ to_complex R pi cis false (JDict [(s_real, JNum (fst z)); (s_imag, JNum (snd z))]) = Ok z.
+Proof. exact notations_agree. Qed.
+Print Assumptions C17_notations_agree.
+Theorem C17_notations_agree_degree : forall (R : fops) (pi : R) (cis : R -> R * R) (r ph : R),
+  let th := fdiv R (fmul R ph pi) (ofZ R 180) in
+  let z : Cx R := (fmul R r (fst (cis th)), fmul R r (snd (cis th))) in
+  to_complex R pi cis true (JDict [(s_abs, JNum r); (s_phase, JNum ph)]) = Ok z
+  /\ to_complex R pi cis true (JDict [(s_real, JNum (fst z)); (s_imag, JNum (snd z))]) = Ok z.
+Proof. exact notations_agree_degree. Qed.
+Print Assumptions C17_notations_agree_degree.
+
+(* ================= D. nested documents ================= *)
+(* [nocollb t]: no dictionary at any depth of t has exactly the key set {real,imag}, {abs,phase} or {abs,phase_deg}
+   (such a dictionary IS a complex number to the reader).  [undict_conv] is the recursive reader applied to every
+   value, [undictify_all] the entry point (dictionaries only). *)
+Theorem C17_nested : forall (R : fops) (leb : R -> R -> bool) (pi : R) (cis : R -> R * R) (t : jval R),
+  nocollb R t = true -> undict_conv R leb pi cis (dictify_all R t) = Ok t.
+Proof. exact undict_dictify. Qed.
+Print Assumptions C17_nested.
+Theorem C17_nested_document : forall (R : fops) (leb : R -> R -> bool) (pi : R) (cis : R -> R * R) (l : dict (jval R)),
+  forallb (fun kv => nocollb R (snd kv)) l = true ->
+  undictify_all R leb pi cis (dictify_all R (JDict l)) = Ok (JDict l).
+Proof. exact undictify_all_dictify_all. Qed.
+Print Assumptions C17_nested_document.
+(* what is written out holds no complex value any more *)
+Theorem C17_dictify_no_complex : forall (R : fops) (t : jval R), has_cplx R (dictify_all R t) = false.
+Proof. exact dictify_no_complex. Qed.
+Print Assumptions C17_dictify_no_complex.
+
+(* ================= E. no mutation ================= *)
+(* loaders in state-passing style return (result, post-state of the object they were given) *)
+Theorem C17_no_mutation : forall (R : fops) (pi : R) (cis : R -> R * R) (d : jval R), snd (load_network_st R pi cis d) = d.
+Proof. exact load_network_no_mutation. Qed.
+Print Assumptions C17_no_mutation.
+Theorem C17_twice : forall (R : fops) (pi : R) (cis : R -> R * R) (d : jval R),
+  fst (load_network_st R pi cis (snd (load_network_st R pi cis d))) = fst (load_network_st R pi cis d).
+Proof. exact load_network_twice. Qed.
+Print Assumptions C17_twice.
+Theorem C17_no_mutation_others : forall (R : fops) (leb : R -> R -> bool) (pi : R) (cis : R -> R * R) (deg : bool) (d : jval R),
+  snd (to_complex_st R pi cis deg d) = d /\ snd (dictify_all_st R d) = d /\ snd (undictify_all_st R leb pi cis d) = d
+  /\ snd (generate_component_st R leb d) = d /\ snd (undictify_circuit_st R leb d) = d.
+Proof. exact no_mutation_others. Qed.
+Print Assumptions C17_no_mutation_others.
+
+(* ================= examples over the Gaussian rationals ================= *)
+Definition qpi : Qc := qc 355 113.
+Definition qcis (x : Qc) : Qc * Qc := if Qc_eq_bool x (qc 1 2) then (qc 3 5, qc 4 5) else (1%Qc, 0%Qc).
+Definition qn (n : Z) (d : positive) : jval Qcops := JNum (qc n d : Qcops).
+Definition ex_description : jval Qcops := JList [
+  JDict [(s_type, JStr (lbl "voltage_source")); (s_id, JStr (lbl "U")); (s_N1, JStr (lbl "1")); (s_N2, JStr (lbl "0"));
+         (s_V, JDict [(s_abs, qn 10 1); (s_phase, qn 1 2)])];
+  JDict [(s_R, qn 5 1); (s_N2, JStr (lbl "2")); (s_N1, JStr (lbl "1")); (s_id, JStr (lbl "R1")); (s_type, JStr (lbl "resistor"))];
+  JDict [(s_type, JStr (lbl "impedance")); (s_id, JStr (lbl "Z1")); (s_N1, JStr (lbl "2")); (s_N2, JStr (lbl "0"));
+         (s_Z, JDict [(s_imag, qn 4 1); (s_real, qn 3 1)])]]%string.
+(* a three-element description (polar source 10 at phase 1/2 with cis(1/2) = (3/5, 4/5)) loads to the network written *)
+Example C17_example_loads :
+  is_ok (load_network Qcops qpi qcis ex_description)
+    (network_eqb {| branches := [Build_branch (lbl "1") (lbl "0") (voltage_source (lbl "U") (cq 6 1 8 1) (cq 0 1 0 1));
+                                 Build_branch (lbl "1") (lbl "2") (resistor (lbl "R1") (cq 5 1 0 1));
+                                 Build_branch (lbl "2") (lbl "0") (impedance (lbl "Z1") (cq 3 1 4 1))]%string;
+                    zero := s_zero |}) = true.
+Proof. vm_compute. reflexivity. Qed.
+(* the loader before fix 6828b52 ([copies] = false) returned the same network but emptied the caller's entries, so a
+   second load of the same object failed: C17_no_mutation / C17_twice are not vacuous properties of the model *)
+Example C17_example_prefix_loader_mutated :
+  is_ok (fst (load_network_prefix_st Qcops qpi qcis ex_description))
+        (fun n => is_ok (load_network Qcops qpi qcis ex_description) (network_eqb n)) = true
+  /\ jval_eqb Qcops (snd (load_network_prefix_st Qcops qpi qcis ex_description)) ex_description = false
+  /\ is_err (fst (load_network_prefix_st Qcops qpi qcis (snd (load_network_prefix_st Qcops qpi qcis ex_description)))) EFileExists = true.
+Proof. vm_compute. repeat split. Qed.
+(* a nested document: complex values in a dictionary in a list in a dictionary, scalars of every type *)
+Definition ex_document : dict (jval Qcops) :=
+  [(lbl "a", JCplx (R := Qcops) (cq 1 1 2 1));
+   (lbl "l", JList [JDict [(lbl "z", JCplx (R := Qcops) (cq 2 1 (-1) 1)); (lbl "n", JNull)]; qn 5 2; JStr (lbl "x"); JBool true;
+                    JList [JCplx (R := Qcops) (cq 0 1 3 1)]]);
+   (lbl "real", qn 1 1)]%string.
+Example C17_example_round_trip :
+  forallb (fun kv => nocollb Qcops (snd kv)) ex_document = true
+  /\ is_ok (undictify_all Qcops Qc_leb qpi qcis (dictify_all Qcops (JDict ex_document))) (jval_eqb Qcops (JDict ex_document)) = true
+  /\ has_cplx Qcops (JDict ex_document) = true.
+Proof. vm_compute. repeat split. Qed.
+(* the hypothesis of C17_nested is needed: a genuine dictionary {real, imag} comes back as a complex number *)
+Example C17_example_collision :
+  is_ok (undictify_all Qcops Qc_leb qpi qcis (dictify_all Qcops (JDict [(lbl "p", JDict [(s_real, qn 1 1); (s_imag, qn 2 1)])])))
+        (jval_eqb Qcops (JDict [(lbl "p", JCplx (R := Qcops) (cq 1 1 2 1))])) = true%string.
+Proof. vm_compute. reflexivity. Qed.
+(* a component description through the circuit loader *)
+Example C17_example_component :
+  is_ok (generate_component Qcops Qc_leb
+           (JDict [(s_type, JStr (lbl "impedance")); (s_id, JStr (lbl "Z")); (s_nodes, JList [JStr (lbl "a"); JStr (lbl "b")]);
+                   (s_value, JDict [(s_Z, JCplx (R := Qcops) (cq 3 1 4 1))])]))
+        (lcomp_eqb Qcops {| lc_type := lbl "impedance"; lc_id := lbl "Z"; lc_nodes := [lbl "a"; lbl "b"];
+                            lc_value := [(lbl "R", qn 3 1); (lbl "X", qn 4 1)] |}) = true%string.
+Proof. vm_compute. reflexivity. Qed.
+(* what the faithful model shows about the circuit loader: these component types have a constructor (and are written by
+   dictify_circuit) but no row in circuit_component_translators — a saved circuit containing one of them, a ground
+   included, cannot be loaded back (UnknownCircuitComponent) *)
+Example C17_example_unloadable_types :
+  unloadable_types = map lbl ["capacitor"; "inductance"; "periodic_voltage_source"; "periodic_current_source"; "lamp";
+                              "resistive_load"; "short_circuit"; "ground"]%string.
+Proof. vm_compute. reflexivity. Qed.
